@@ -892,9 +892,24 @@ func streamFacts() {
 		"Send appends the request's future and returns the result of waiting for it, without touching the queue again; every response completes the head of the queue")
 }
 
+// rangeScanFacts: the per-shard range scan closes its result channel on every path
+func rangeScanFacts() {
+	f := parse("oxia/async_client_impl.go")
+	fn := funcDecl(f, "clientImpl", "rangeScanFromShard")
+	b := ""
+	if fn != nil {
+		b = squash(src(fn.Body))
+	}
+	iClose := strings.Index(b, "defer close(ch)")
+	iExec := strings.Index(b, "c.executor.ExecuteRangeScan(")
+	add("rangeScanClosesChannelOnAllPaths", "Bool", boolLean(iClose >= 0 && iExec > iClose), "oxia/async_client_impl.go: (*clientImpl).rangeScanFromShard",
+		"the close of the result channel is deferred before the request is made")
+}
+
 func moreFacts() {
 	newTermSyncFacts()
 	streamFacts()
+	rangeScanFacts()
 	walFacts()
 	codecFacts()
 	dbFacts()
